@@ -1,8 +1,17 @@
 // Family "off" (C06 polygons, C07 open paths): offsetting calls with the measured cover of the result at
 // sample points given in quarter units.  OffsetTrace.tla classifies every sample point and judges.
 #include "boolcommon.hpp"
+#include "clipper2/clipper.verif.h"
 #include <cmath>
 namespace {
+// hook H5: what ClipperOffset appends per vertex, written to a side file (--jout) for OffsetJoinTrace.tla
+std::string g_jout; std::ostringstream* g_js = nullptr; int g_jn = 0;
+void join_cb(const long long* v, const long long* pts, int npts) {
+  if (!g_js || ++g_jn > 80) return;
+  std::vector<Point64> P; for (int i = 0; i < npts; ++i) P.emplace_back((int64_t)pts[2 * i], (int64_t)pts[2 * i + 1]);
+  (*g_js) << Ev("Join").kv("pk", jints({v[0], v[1]})).kv("pj", jints({v[2], v[3]})).kv("nk", jints({v[4], v[5]})).kv("nj", jints({v[6], v[7]}))
+              .kn("d", v[8]).kn("jt", v[9]).kn("et", v[10]).kn("ml", v[11]).kv("pts", jpath(P)).str() << "\n";
+}
 const double PI_ = 3.14159265358979323846;
 Path64 star(Rng& r, int cx, int cy, int nv, int rmin, int rmax) {
   std::vector<double> ang; for (int i = 0; i < nv; ++i) ang.push_back((i + 0.15 + 0.7 * (r.range(0, 1000) / 1000.0)) * 2 * PI_ / nv);
@@ -26,7 +35,9 @@ void emit(std::ostream& os, const Paths64& in, const Params& p, long long pseed,
   std::string what = "\"case\":{\"paths\":" + jpaths(in) + ",\"jt\":" + jnum(p.jt) + ",\"et\":" + jnum(p.et) + ",\"d4\":" + jnum(std::llround(p.delta * sc)) + ",\"ml100\":" + jnum(std::llround(p.ml * 100)) + ",\"at4\":" + jnum(std::llround(p.at * sc)) + ",\"sc\":" + jnum(sc) + ",\"rs\":" + jnum(p.rs) + ",\"pseed\":" + jnum(pseed) + "}";
   ++ncalls;
   guarded(os, what, 60, [&](std::ostream& os) {
+    std::ostringstream js; if (!g_jout.empty() && sc == 4) { g_js = &js; g_jn = 0; Clipper2Lib::verif::offset_fn = join_cb; js << "{\"e\":\"JCase\"," << what << "}\n"; }
     Paths64 sol = do_offset(in, p);
+    if (g_js) { Clipper2Lib::verif::offset_fn = nullptr; g_js = nullptr; std::ofstream jf(g_jout, std::ios::app); jf << js.str(); }
     int eqneg = -1;
     if (p.et != 0) { Params q = p; q.delta = -p.delta; eqneg = do_offset(in, q) == sol ? 1 : 0; }
     int64_t lx = 1 << 30, ly = 1 << 30, hx = -(1 << 30), hy = -(1 << 30);
@@ -53,6 +64,7 @@ void emit(std::ostream& os, const Paths64& in, const Params& p, long long pseed,
 int cmd_off(const Args& a) {
   Rng r((uint64_t)argi(a, "seed", 1)); std::string kind = args(a, "kind", "poly"); long long n = argi(a, "n", 10); int npts = (int)argi(a, "npts", 200);
   std::ofstream os(args(a, "out", "/dev/stdout")); long long ncalls = 0; std::string inf = args(a, "in", "");
+  g_jout = args(a, "jout", ""); if (!g_jout.empty()) std::ofstream(g_jout, std::ios::trunc);
   static const double deltas[] = {0.25, 1, 3, 7, 15, 25}; static const double mls[] = {1, 2, 2, 5}; static const double ats[] = {0, 0, 0.25, 2};
   if (!inf.empty()) {   // replay: one line = the "case" object of a Crash / failing event
     std::ifstream in(inf); std::string line;
